@@ -22,8 +22,10 @@ func init() {
 				Quick: map[string]int{"STUFF": 2}, Witnesses: []string{"refused-then-plaintext"}},
 			{Pkg: "buffer", Entry: "VerifH10b", What: "a skipped (oversized) message is consumed in exactly its declared length, for every segmentation",
 				Quick: map[string]int{"LMAX": 2}, Thorough: map[string]int{"LMAX": 3}, Witnesses: []string{"multi-chunk"}},
+			{Pkg: "buffer", Entry: "VerifH18k", What: "the bytes of a later message never land in the window an earlier message was parsed from (K successive windows, symbolic sizes on both sides of the 4 KiB granule)",
+				Quick: map[string]int{"K": 5, "SMAX": 9000}, Witnesses: []string{"large-window", "same-array-reused"}},
 			{Pkg: "wire", Entry: "VerifH10c", What: "session: the message after a skipped one is interpreted from its own first byte",
-				Quick: map[string]int{"LVAR": 3, "OVER": 3}, Witnesses: []string{"oversized-in-the-middle"}},
+				Quick: map[string]int{"LVAR": 3, "OVER": 3, "DISCARD": 1}, Witnesses: []string{"oversized-in-the-middle", "oversized-while-discarding"}},
 		},
 	})
 }
